@@ -5,7 +5,7 @@ from .. import gen
 from ..common import rat, run_impl
 
 PROP = "C18"
-LEAN_MODULE = "VK.Props.C18"
+LEAN_MODULE = "VK.Check.C18"
 THEOREMS = [
     "VK.C18_groups",
     "VK.C18_weights_count",
